@@ -39,6 +39,8 @@ def run(tier, seed):
     job.add(Harness("vm4::verif_kani::par_n::mn_par_wiring", "C19.Moments4.par_collect_each_item_once",
                     "impl_from_par_iterator!(define_moments! type)", bounded=BOUND))
     obs = job.run()
+    import glue_struct
+    obs += glue_struct.par_obligations("C19")
     obs += vl.run_lemmas("C19", ["merge_tree", "concat", "tree_equals"])
     meta = {
         "level": "other",
